@@ -176,6 +176,13 @@ impl Tileset<RawPixels> {
             width: tile_width,
             height: tile_height,
         };
+        if tile_width == 0 || tile_height == 0 {
+            // Tilemap sizes are computed by dividing by the tile size.
+            return Err(AsepriteParseError::InvalidInput(format!(
+                "Tileset {} has an empty tile size: {}x{}",
+                id, tile_width, tile_height
+            )));
+        }
         let base_index = reader.short()?;
         reader.skip_reserved(14)?;
         let name = reader.string()?;
